@@ -44,6 +44,9 @@ func agentd(args []string) {
 			case "stats":
 				b, _ := json.Marshal(iface.VerifStats())
 				fmt.Println("@@ " + string(b))
+			case "p4stats":
+				b, _ := json.Marshal(iface.VerifUP4Stats())
+				fmt.Println("@@ " + string(b))
 			case "stop":
 				go func() {
 					iface.Stop()
